@@ -25,7 +25,7 @@ import (
 )
 
 var st = stat.New("C19",
-	"Transport part. Case = {tcp | udp adapter, MaxInvoke 1..4, queue capacity 1..8 or 10000, 1..3 client connections (tcp), a burst of MaxInvoke+1 .. MaxInvoke+QueueCap+14 requests written back to back, handler duration 15..120 ms}. Oracle (recorded by the handlers themselves): the high-water mark of handlers running at the same time never exceeds MaxInvoke; every request is handled exactly once (awaited: burst * duration / MaxInvoke + 3 s) and, over tcp, answered exactly once. Non-trivial = burst larger than workers + queue (the receive loop has to block on a full queue). Distinct = distinct case JSON.",
+	"Transport part. Case = {tcp | udp adapter, MaxInvoke 1..4, queue capacity 1..8 or 10000, 1..3 client connections (tcp), a burst of MaxInvoke+1 .. MaxInvoke+QueueCap+14 requests written back to back - while serving or (tcp) 30 ms after a graceful Shutdown was started on the established connections -, handler duration 15..120 ms}. Oracle (recorded by the handlers themselves): the high-water mark of handlers running at the same time never exceeds MaxInvoke; every request is handled exactly once (awaited: burst * duration / MaxInvoke + 3 s) and, over tcp, answered exactly once. Non-trivial = burst larger than workers + queue (the receive loop has to block on a full queue). Distinct = distinct case JSON.",
 	"UDP datagrams that do not fit the socket buffer would be dropped by the kernel; bursts are far below that (<= 30 datagrams of 12 bytes)")
 
 func init() { rogger.SetLevel(rogger.OFF) }
@@ -37,6 +37,10 @@ type Case struct {
 	NConns    int    `json:"n_conns"`
 	Burst     int    `json:"burst"`
 	HandlerMs int    `json:"handler_ms"`
+	// DuringShutdown (tcp): a graceful Shutdown is started 30 ms before the burst is written on
+	// the already established connections; the pool is still in place while the server drains,
+	// so the bound holds; which requests are still read is not asserted (at most once each)
+	DuringShutdown bool `json:"during_shutdown,omitempty"`
 }
 
 func draw(rt *rapid.T) Case {
@@ -52,6 +56,7 @@ func draw(rt *rapid.T) Case {
 	if c.Burst*c.HandlerMs/int(c.MaxInvoke) > 2500 {
 		c.HandlerMs = 15
 	}
+	c.DuringShutdown = c.Proto == "tcp" && rapid.Bool().Draw(rt, "duringShutdown")
 	return c
 }
 
@@ -101,10 +106,12 @@ func run(c Case) *stat.Failure {
 	addr := srv.VerifAddr()
 	conf.Address = addr
 	go func() { _ = srv.Serve() }()
-	defer func() {
-		ctx, cancel := context.WithTimeout(context.Background(), 2*time.Second)
-		go func() { _ = srv.Shutdown(ctx); cancel() }()
-	}()
+	if !c.DuringShutdown {
+		defer func() {
+			ctx, cancel := context.WithTimeout(context.Background(), 2*time.Second)
+			go func() { _ = srv.Shutdown(ctx); cancel() }()
+		}()
+	}
 	req := func(id uint32) []byte {
 		b := make([]byte, 12)
 		binary.BigEndian.PutUint32(b, 12)
@@ -145,19 +152,34 @@ func run(c Case) *stat.Failure {
 	if c.Proto == "tcp" {
 		time.Sleep(20 * time.Millisecond) // all connections accepted
 	}
+	if c.DuringShutdown {
+		ctx, cancel := context.WithTimeout(context.Background(), 6*time.Second)
+		defer cancel()
+		go func() { _ = srv.Shutdown(ctx) }()
+		time.Sleep(30 * time.Millisecond)
+	}
 	for i := 0; i < c.Burst; i++ {
 		cn := conns[i%len(conns)]
 		if _, err := cn.Write(req(uint32(i + 1))); err != nil {
+			if c.DuringShutdown {
+				break // the server may already have closed this connection
+			}
 			return stat.Failf("harness-failure", "write: %v", err)
 		}
 	}
 	deadline := time.Now().Add(time.Duration(c.Burst*c.HandlerMs/int(c.MaxInvoke))*time.Millisecond + 3*time.Second)
+	quietSince := time.Now()
 	for time.Now().Before(deadline) {
 		rec.mu.Lock()
 		n := len(rec.handled)
 		rec.mu.Unlock()
 		if n >= c.Burst && atomic.LoadInt32(&rec.running) == 0 {
 			break
+		}
+		if atomic.LoadInt32(&rec.running) != 0 {
+			quietSince = time.Now()
+		} else if c.DuringShutdown && time.Since(quietSince) > 700*time.Millisecond {
+			break // draining server: nothing running for a while, the rest was not read
 		}
 		time.Sleep(2 * time.Millisecond)
 	}
@@ -168,6 +190,12 @@ func run(c Case) *stat.Failure {
 	rec.mu.Lock()
 	defer rec.mu.Unlock()
 	for i := 1; i <= c.Burst; i++ {
+		if c.DuringShutdown {
+			if k := rec.handled[uint32(i)]; k > 1 {
+				return stat.Failf("exactly-once", "tcp adapter during shutdown: request %d was handled %d times", i, k)
+			}
+			continue
+		}
 		if k := rec.handled[uint32(i)]; k != 1 {
 			return stat.Failf("exactly-once", "%s adapter with MaxInvoke=%d, queue capacity %d: request %d of a burst of %d was handled %d times (%d distinct requests handled)", c.Proto, c.MaxInvoke, c.QueueCap, i, c.Burst, k, len(rec.handled))
 		}
@@ -189,7 +217,7 @@ func TestC19Transport(t *testing.T) {
 	defer st.Emit()
 	stat.Check(t, st, "adapter-pool", stat.N(40, 1200), draw, func(c Case) *stat.Failure {
 		qc := c.QueueCap
-		st.CaseJSON(c, c.Burst > int(c.MaxInvoke)+qc, "adapter-"+c.Proto, fmt.Sprintf("adapter-maxinvoke-%d", c.MaxInvoke))
+		st.CaseJSON(c, c.Burst > int(c.MaxInvoke)+qc, "adapter-"+c.Proto, fmt.Sprintf("adapter-maxinvoke-%d", c.MaxInvoke), map[bool]string{true: "burst-during-graceful-shutdown", false: "burst-while-serving"}[c.DuringShutdown])
 		return run(c)
 	})
 }
